@@ -213,11 +213,11 @@ Proof.
       split; apply filter_In; (split; [assumption | apply negb_true_iff, Z.eqb_neq; assumption]).
     + intros v Hv. cbn. cbn in Hv. destruct (Z.eqb v n) eqn:E; [reflexivity|]. apply Hg2. intro H. apply Hv.
       apply filter_In. split; [exact H | rewrite E; reflexivity].
-  - split; [cbn; unfold call_remove; rewrite run_handlers_length; exact HL1|].
+  - split; [cbn [st_loci]; unfold call_remove; rewrite call_length; exact HL1|].
     intros i Hi.
     apply (mid_winv_removed _ s _ n).
     + intro v. cbn. rewrite filter_In, negb_true_iff, Z.eqb_neq. tauto.
-    + intros a b. unfold adj. cbn. rewrite !adjb_spec, !filter_In. unfold touches. cbn [fst snd].
+    + intros a b. unfold adj. cbn [st_edges]. rewrite !adjb_spec, !filter_In. unfold touches. cbn [fst snd].
       rewrite !negb_true_iff, !orb_false_iff, !Z.eqb_neq. tauto.
     + intros v Hv. unfold getc. cbn. apply Z.eqb_neq in Hv. rewrite Hv. reflexivity.
     + cbn [st_loci]. change (st_loci (call_remove tbl s1 (N n))) with (st_loci (call tbl remove_handler s1 (N n))).
@@ -238,7 +238,7 @@ Proof.
   set (es := if adjb (st_edges s) n m then st_edges s else st_edges s ++ [(n, m)]).
   set (s1 := mkState (st_nodes s) es (st_attr s) (st_loci s)).
   assert (Hadj : forall a b, adj s1 a b <-> adj s a b \/ (a = n /\ b = m) \/ (a = m /\ b = n)).
-  { intros a b. unfold adj, s1, es. cbn. destruct (adjb (st_edges s) n m) eqn:E.
+  { intros a b. unfold adj, s1, es. cbn [st_edges]. destruct (adjb (st_edges s) n m) eqn:E.
     - split; [tauto|]. intros [H|[[H1 H2]|[H1 H2]]]; [exact H | subst; exact E | subst; rewrite adjb_sym; exact E].
     - rewrite !adjb_spec, !in_app_iff. cbn. split.
       + intros [[H|[H|[]]]|[H|[H|[]]]]; try tauto; inversion H; subst; tauto.
@@ -263,11 +263,11 @@ Proof.
   destruct (adjb (st_edges s) n m) eqn:Eadj; cbn [fst].
   - split.
     + split; [|exact Hg2]. intros a b Hab. cbn in Hab. apply filter_In in Hab. apply Hg1. tauto.
-    + split; [cbn; unfold call_remove; rewrite run_handlers_length; exact HL|]. intros i Hi.
+    + split; [cbn [st_loci]; unfold call_remove; rewrite call_length; exact HL|]. intros i Hi.
       cbn [st_loci]. change (st_loci (call_remove tbl s (E n m))) with (st_loci (call tbl remove_handler s (E n m))).
       rewrite call_loci by assumption. cbn [handler_compartments].
       apply (remove_edge_winv _ s); [apply wf_loci_nth; assumption | apply HI; exact Hi | reflexivity | reflexivity |].
-      intros a b. unfold adj. cbn. rewrite !adjb_spec, !filter_In, !negb_true_iff.
+      intros a b. unfold adj. cbn [st_edges]. rewrite !adjb_spec, !filter_In, !negb_true_iff.
       assert (Hse : forall u w, same_edge n m (u, w) = false <-> ~ ((u = n /\ w = m) \/ (u = m /\ w = n))).
       { intros u w. split.
         - intros H Hc. assert (same_edge n m (u, w) = true) by (apply same_edge_spec; destruct Hc as [[? ?]|[? ?]]; subst; tauto). congruence.
@@ -352,9 +352,15 @@ Lemma attr_present_step_change : forall tbl s n c v,
   getc_raises s v = false -> getc_raises (fst (change_compartment tbl s n c)) v = false.
 Proof.
   intros tbl s n c v Hv. unfold change_compartment. destruct (getc_raises s n) eqn:Hn; [exact Hv|]. cbn [fst].
-  unfold getc_raises in *. cbn. apply orb_false_iff in Hv. destruct Hv as [H1 H2].
-  destruct (getc s n); cbn; change (has_node _ v) with (has_node s v); rewrite H1; cbn;
-    (destruct (Z.eqb v n); [reflexivity | exact H2]).
+  set (s2 := match getc s n with Some _ => call_leave tbl s (N n) | None => s end).
+  assert (H1 : has_node s2 v = has_node s v) by (unfold s2; destruct (getc s n); reflexivity).
+  assert (H2 : st_attr s2 v = st_attr s v) by (unfold s2; destruct (getc s n); reflexivity).
+  unfold getc_raises in *.
+  change (has_node (call_enter tbl (with_attr s2 n (Some (Some c))) (N n)) v) with (has_node s2 v).
+  change (st_attr (call_enter tbl (with_attr s2 n (Some (Some c))) (N n)) v)
+    with (if Z.eqb v n then Some (Some c) else st_attr s2 v).
+  rewrite H1, H2. apply orb_false_iff in Hv. destruct Hv as [Hv1 Hv2]. rewrite Hv1. cbn [orb].
+  destruct (Z.eqb v n); [reflexivity | exact Hv2].
 Qed.
 
 Lemma init_valid : forall tbl init s, (forall nc, In nc init -> getc_raises s (fst nc) = false) ->
@@ -370,7 +376,7 @@ Lemma setup_valid : forall tbl nodes edges init, forallb (fun nc => zmem (fst nc
   validb tbl (state0 tbl nodes edges) (init_ops init) = true.
 Proof.
   intros tbl nodes edges init H. apply init_valid. rewrite forallb_forall in H. intros nc Hnc. specialize (H nc Hnc).
-  unfold getc_raises, has_node, state0. cbn. rewrite H. reflexivity.
+  unfold getc_raises, has_node, state0. cbn [st_nodes st_attr]. rewrite H. reflexivity.
 Qed.
 
 (* ---------- consequences the property names ---------- *)
